@@ -463,7 +463,15 @@ func c18GenCase(r *Rand) c18Case {
 			cs.Modes[name] = []string{"literal", "variable", "default", "variable"}[r.Intn(4)]
 		}
 	}
-	if r.Chance(0.2) {
+	if r.Chance(0.08) {
+		// a null element in a list of non-nullable elements
+		for _, cand := range []string{"L", "LS", "LI"} {
+			if fv := v.FieldByName(cand); fv.Len() > 0 {
+				cs.Tamper = lowerFirst(cand)
+				cs.TamperAs = "nullelem"
+			}
+		}
+	} else if r.Chance(0.2) {
 		f := t.Field(r.Intn(t.NumField()))
 		cs.Tamper = lowerFirst(f.Name)
 		cs.TamperAs = []string{"true", "12", "\"str\"", "[1]", "{x: 1}", "1.5"}[r.Intn(6)]
@@ -491,6 +499,41 @@ func c18One(c *Ctx, m *Model, schema *graphql.Schema, cs c18Case) {
 		name := lowerFirst(f.Name)
 		mode := cs.Modes[name]
 		fid := c18FieldID(name)
+		if name == cs.Tamper && cs.TamperAs == "nullelem" {
+			// a null element inside a list whose element type is not nullable: once as an unbound
+			// variable inside a list literal, once inside a list-valued variable
+			fv := v.Field(i)
+			var ts []string
+			lits, js, jvs := []interface{}{}, []interface{}{}, []interface{}{}
+			for k := 0; k < fv.Len(); k++ {
+				if k == 0 {
+					ts = append(ts, "$unbound")
+					lits = append(lits, map[string]interface{}{"var": 0})
+					js = append(js, nil)
+					jvs = append(jvs, nil)
+					continue
+				}
+				t, l, j, jv := tk.send(fv.Index(k))
+				ts = append(ts, t)
+				lits = append(lits, l)
+				js = append(js, j)
+				jvs = append(jvs, jv)
+			}
+			if len(cs.Args.LS)%2 == 0 {
+				argTexts = append(argTexts, name+": ["+strings.Join(ts, ", ")+"]")
+				litFields = append(litFields, []interface{}{fid, map[string]interface{}{"list": lits}})
+			} else {
+				vn := fmt.Sprintf("v%d", varID)
+				argTexts = append(argTexts, name+": $"+vn)
+				varDefs = append(varDefs, "$"+vn+": [String]")
+				vars[vn] = js
+				modelVars = append(modelVars, []interface{}{varID, jvs})
+				modelDefs = append(modelDefs, map[string]interface{}{"name": varID, "nonNull": false, "default": nil})
+				litFields = append(litFields, []interface{}{fid, map[string]interface{}{"var": varID}})
+				varID++
+			}
+			continue
+		}
 		if name == cs.Tamper {
 			argTexts = append(argTexts, name+": "+cs.TamperAs)
 			litFields = append(litFields, []interface{}{fid, c18TamperLit(cs.TamperAs, tk)})
@@ -595,6 +638,9 @@ func c18One(c *Ctx, m *Model, schema *graphql.Schema, cs c18Case) {
 				rep.Fail("impl_ne_spec", nil, cs, map[string]interface{}{"what": "resolver received a different value than was sent", "query": query, "vars": vars, "sent": tk.gv(expected), "received": tk.gv(reflect.ValueOf(got[0]))})
 			}
 		}
+	}
+	if cs.TamperAs == "nullelem" && ierr == nil {
+		rep.Fail("impl_ne_spec", nil, cs, map[string]interface{}{"what": "a null element of a list whose elements are required was accepted instead of rejected as a client error", "query": query, "vars": vars, "received": fmt.Sprint(got)})
 	}
 	if ierr == nil && !modelRejects && len(got) == 1 {
 		if Canon(tk.gv(reflect.ValueOf(got[0]))) != Canon(mres["ok"]) {
